@@ -130,3 +130,289 @@ pub fn soup_word(r: &mut Rng) -> u16 {
 pub fn reg_name(n: u16) -> String {
     format!("R{}", n & 7)
 }
+
+// ---------------------------------------------------------------------------
+// Structured programs rendered as source text (assembled by the real toolchain).
+
+#[derive(Clone, Copy, Debug, PartialEq, Eq)]
+pub enum EndKind {
+    Halt,
+    Reserved,
+    NonCanonical,
+    Rti,
+    AcvLoad,
+    AcvStore,
+    JumpOut,
+    BadTrap,
+}
+
+#[derive(Clone, Debug)]
+pub struct ProgOpts {
+    pub len: usize,
+    pub out: bool,
+    pub kb: bool,
+    pub calls: bool,
+    pub stack: bool,
+    pub loops: bool,
+    pub init_regs: bool,
+    pub end: EndKind,
+    pub usp: u16,
+}
+impl ProgOpts {
+    pub fn basic(len: usize) -> Self {
+        ProgOpts { len, out: true, kb: false, calls: true, stack: true, loops: true, init_regs: true, end: EndKind::Halt, usp: 0xF000 }
+    }
+}
+
+pub struct Prog {
+    pub text: String,
+    /// number of keyboard bytes the program consumes (GETC/IN executed once each, not in loops)
+    pub keys_needed: usize,
+    pub n_subs: usize,
+}
+
+fn printable(r: &mut Rng) -> char {
+    loop {
+        let c = (0x20 + r.below(0x5F) as u8) as char;
+        if c != '"' && c != '\\' && c != ';' {
+            return c;
+        }
+    }
+}
+
+fn alu(r: &mut Rng, out: &mut Vec<String>) {
+    let d = r.below(6);
+    let s = r.below(6);
+    let t = r.below(6);
+    out.push(match r.below(6) {
+        0 => format!("ADD R{d}, R{s}, #{}", r.range(-16, 15)),
+        1 => format!("ADD R{d}, R{s}, R{t}"),
+        2 => format!("AND R{d}, R{s}, R{t}"),
+        3 => format!("AND R{d}, R{s}, #{}", r.range(-16, 15)),
+        4 => format!("NOT R{d}, R{s}"),
+        _ => format!("ADD R{d}, R{d}, #{}", r.range(1, 7)),
+    });
+}
+
+/// Generates a terminating user program. All loops are counted; GETC/IN appear only
+/// in straight-line code so `keys_needed` is exact.
+pub fn gen_program(r: &mut Rng, o: &ProgOpts) -> Prog {
+    let mut body: Vec<String> = vec![];
+    let mut keys = 0usize;
+    let n_subs = if o.calls { 1 + r.below(3) as usize } else { 0 };
+    let n_data = 3 + r.below(3) as usize;
+    let mut lbl = 0usize;
+    body.push("LD R6, USP".into());
+    if o.init_regs {
+        for k in 0..6 {
+            body.push(format!("AND R{k}, R{k}, #0"));
+            if r.bool() {
+                body.push(format!("ADD R{k}, R{k}, #{}", r.range(-16, 15)));
+            }
+        }
+    }
+    let mut budget = o.len;
+    while budget > 0 {
+        budget -= 1;
+        match r.below(12) {
+            0..=2 => alu(r, &mut body),
+            3 => {
+                let k = r.below(n_data as u64);
+                match r.below(4) {
+                    0 => body.push(format!("ST R{}, D{k}", r.below(6))),
+                    1 => body.push(format!("LD R{}, D{k}", r.below(6))),
+                    2 => body.push(format!("LDI R{}, P{k}", r.below(6))),
+                    _ => body.push(format!("STI R{}, P{k}", r.below(6))),
+                }
+            }
+            4 => {
+                let b = r.below(6);
+                let mut x = r.below(6);
+                if x == b {
+                    x = (x + 1) % 6;
+                }
+                let off = r.below(4);
+                body.push(format!("LEA R{b}, BUF"));
+                body.push(format!("STR R{x}, R{b}, #{off}"));
+                body.push(format!("LDR R{}, R{b}, #{off}", r.below(6)));
+            }
+            5 if o.loops => {
+                lbl += 1;
+                let n = 1 + r.below(4);
+                body.push("AND R5, R5, #0".into());
+                body.push(format!("ADD R5, R5, #{n}"));
+                body.push(format!("L{lbl}"));
+                for _ in 0..1 + r.below(3) {
+                    let d = r.below(5);
+                    let s = r.below(5);
+                    body.push(format!("ADD R{d}, R{s}, #{}", r.range(-4, 4)));
+                }
+                if o.out && r.chance(1, 3) {
+                    body.push("LD R0, CH0".into());
+                    body.push("OUT".into());
+                }
+                body.push("ADD R5, R5, #-1".into());
+                body.push(format!("BRp L{lbl}"));
+            }
+            6 => {
+                lbl += 1;
+                let x = r.below(6);
+                body.push(format!("ADD R{x}, R{x}, #0"));
+                body.push(format!("BR{} S{lbl}", r.pick(&["n", "z", "p", "nz", "zp", "np"])));
+                alu(r, &mut body);
+                alu(r, &mut body);
+                body.push(format!("S{lbl}"));
+            }
+            7 if n_subs > 0 => {
+                let j = r.below(n_subs as u64);
+                if r.bool() {
+                    body.push(format!("JSR SUB{j}"));
+                } else {
+                    body.push(format!("LEA R4, SUB{j}"));
+                    body.push("JSRR R4".into());
+                }
+            }
+            8 if o.stack => {
+                let x = r.below(6);
+                body.push("ADD R6, R6, #-1".into());
+                body.push(format!("STR R{x}, R6, #0"));
+                alu(r, &mut body);
+                body.push(format!("LDR R{}, R6, #0", r.below(6)));
+                body.push("ADD R6, R6, #1".into());
+            }
+            9 if o.out => match r.below(4) {
+                0 => {
+                    body.push(format!("LD R0, CH{}", r.below(2)));
+                    body.push((*r.pick(&["OUT", "PUTC", "TRAP x21"])).into());
+                }
+                1 => {
+                    body.push(format!("LEA R0, STR{}", r.below(2)));
+                    body.push((*r.pick(&["PUTS", "TRAP x22"])).into());
+                }
+                2 => {
+                    body.push("LEA R0, PSTR".into());
+                    body.push((*r.pick(&["PUTSP", "TRAP x24"])).into());
+                }
+                _ => {
+                    body.push("LEA R0, STR0".into());
+                    body.push("PUTS".into());
+                }
+            },
+            10 if o.kb => {
+                keys += 1;
+                if o.out && r.chance(1, 3) {
+                    body.push((*r.pick(&["IN", "TRAP x23"])).into());
+                } else {
+                    body.push((*r.pick(&["GETC", "TRAP x20"])).into());
+                }
+                if o.out && r.bool() {
+                    body.push("OUT".into());
+                }
+            }
+            _ => alu(r, &mut body),
+        }
+    }
+    match o.end {
+        EndKind::Halt => body.push((*r.pick(&["HALT", "HALT", "TRAP x25"])).into()),
+        EndKind::Reserved => body.push(format!(".fill x{:04X}", 0xD000 | (r.u16() & 0xFFF))),
+        EndKind::NonCanonical => body.push((*r.pick(&[".fill x1018", ".fill x5010", ".fill x8001", ".fill x903E", ".fill xF100", ".fill x4001", ".fill xC001"])).into()),
+        EndKind::Rti => body.push("RTI".into()),
+        EndKind::AcvLoad => {
+            body.push("LD R1, PSUP".into());
+            body.push("LDR R0, R1, #0".into());
+        }
+        EndKind::AcvStore => {
+            body.push("LD R1, PSUP".into());
+            body.push("STR R0, R1, #0".into());
+        }
+        EndKind::JumpOut => {
+            body.push("LD R1, PSUP".into());
+            body.push("JMP R1".into());
+        }
+        EndKind::BadTrap => body.push(format!("TRAP x{:02X}", *r.pick(&[0x00u16, 0x1F, 0x26, 0x7F, 0xFF]))),
+    }
+    // safety net: anything falling through ends here
+    body.push("HALT".into());
+    let mut t = String::from(".orig x3000\n");
+    for l in &body {
+        let is_label = (l.starts_with('L') || l.starts_with('S')) && !l.contains(' ') && l.len() <= 6 && l[1..].chars().all(|c| c.is_ascii_digit());
+        if is_label {
+            t.push_str(l);
+            t.push('\n');
+        } else {
+            t.push_str("    ");
+            t.push_str(l);
+            t.push('\n');
+        }
+    }
+    // data close to the code (9-bit offsets)
+    t.push_str(&format!("USP .fill x{:04X}\n", o.usp));
+    t.push_str(&format!("PSUP .fill x{:04X}\n", *r.pick(&[0x0000u16, 0x2FFF, 0xFE00, 0xFFFE, 0x0200, 0xFFFF])));
+    for k in 0..n_data {
+        t.push_str(&format!("D{k} .fill x{:04X}\n", r.u16()));
+        t.push_str(&format!("P{k} .fill D{}\n", r.below(n_data as u64)));
+    }
+    t.push_str("BUF .blkw 4\n");
+    t.push_str(&format!("CH0 .fill x{:04X}\nCH1 .fill x{:04X}\n", 0x21 + r.below(0x5D) as u16, (r.u16() & 0xFF00) | (0x21 + r.below(0x5D) as u16)));
+    for k in 0..2 {
+        let n = r.below(7) as usize;
+        let s: String = (0..n).map(|_| printable(r)).collect();
+        t.push_str(&format!("STR{k} .stringz \"{s}\"\n"));
+    }
+    t.push_str("PSTR");
+    let pn = r.below(6) as usize;
+    for i in 0..pn {
+        let lo = 0x21 + r.below(0x5D) as u16;
+        let hi = if i + 1 == pn && r.bool() { 0 } else { 0x21 + r.below(0x5D) as u16 };
+        t.push_str(&format!(" .fill x{:04X}\n", hi << 8 | lo));
+    }
+    t.push_str(" .fill x0000\n");
+    for j in 0..n_subs {
+        t.push_str(&format!("SUB{j}\n    ADD R6, R6, #-1\n    STR R7, R6, #0\n"));
+        let mut sb = vec![];
+        for _ in 0..1 + r.below(4) {
+            alu(r, &mut sb);
+        }
+        if j + 1 < n_subs && r.bool() {
+            sb.push(format!("JSR SUB{}", j + 1));
+        }
+        if o.out && r.chance(1, 4) {
+            sb.push("LD R0, CH0".into());
+            sb.push("OUT".into());
+        }
+        for l in sb {
+            t.push_str("    ");
+            t.push_str(&l);
+            t.push('\n');
+        }
+        t.push_str("    LDR R7, R6, #0\n    ADD R6, R6, #1\n    RET\n");
+    }
+    t.push_str(".end\n");
+    Prog { text: t, keys_needed: keys, n_subs }
+}
+
+/// Interrupt service routine from the well-behaved template: saves what it uses on R6,
+/// does side work in supervisor scratch memory, optionally acknowledges its device
+/// (MMIO write) or consumes a keyboard byte, restores, RTI.
+pub fn gen_handler(r: &mut Rng, at: u16, ack_port: Option<u16>, read_kbdr: bool, work: usize) -> String {
+    let mut t = format!(".orig x{at:04X}\n");
+    t.push_str("    ADD R6, R6, #-1\n    STR R0, R6, #0\n    ADD R6, R6, #-1\n    STR R1, R6, #0\n");
+    t.push_str("    LD R0, HCNT\n    ADD R0, R0, #1\n    ST R0, HCNT\n");
+    for _ in 0..work {
+        match r.below(3) {
+            0 => t.push_str(&format!("    ADD R1, R0, #{}\n", r.range(-8, 7))),
+            1 => t.push_str("    NOT R1, R0\n"),
+            _ => t.push_str("    AND R1, R1, R0\n"),
+        }
+    }
+    if read_kbdr {
+        t.push_str("    LDI R1, HKBDR\n    ST R1, HKEY\n");
+    }
+    if ack_port.is_some() {
+        t.push_str("    STI R0, HACK\n");
+    }
+    t.push_str("    LDR R1, R6, #0\n    ADD R6, R6, #1\n    LDR R0, R6, #0\n    ADD R6, R6, #1\n    RTI\n");
+    t.push_str("HCNT .fill 0\nHKEY .fill 0\nHKBDR .fill xFE02\n");
+    t.push_str(&format!("HACK .fill x{:04X}\n.end\n", ack_port.unwrap_or(0xFE20)));
+    t
+}
